@@ -70,6 +70,17 @@ func TestMakeReplays(t *testing.T) {
 	dupName := &lib.Stmt{Kind: "select", Fields: []lib.SelField{{E: lib.Key(), Alias: "t1"}, {E: lib.Value(), Alias: "t1"}}, Where: lib.Bin("!=", lib.Ref("t1", lib.TyText), lib.Str("x"))}
 	write("C05", "c05", "repeated-name", "key as t1, value as t1 where t1 != 'x' returned the key in both columns", &c05Case{Stmt: dupName, Pairs: abc, Batch: 2})
 
+	// ---- round-4 repairs ------------------------------------------------------
+	mixed := []lib.Pair{{K: "a", V: "2"}, {K: "b", V: "2.5"}, {K: "c", V: "0.5"}}
+	write("C09", "c09", "max-mixed", "max over 2, 2.5, 0.5 was 2 (floats compared by their integer part against an integer extreme)", &c09Case{Stmt: &lib.Stmt{Kind: "select", Fields: []lib.SelField{{E: lib.Call("max", lib.Value())}, {E: lib.Call("min", lib.Value())}}, Where: lib.Bin("!=", lib.Key(), lib.Str("zz"))}, Pairs: mixed, Batch: 2})
+	close6 := []lib.Pair{{K: "a", V: "0.1234561"}, {K: "b", V: "0.1234562"}, {K: "c", V: "0.1234561"}}
+	write("C09", "c09", "float-group-six-decimals", "group by float(value) merged 0.1234561 and 0.1234562", &c09Case{Stmt: &lib.Stmt{Kind: "select", Fields: []lib.SelField{{E: lib.Call("float", lib.Value()), Alias: "g1"}, {E: lib.Call("count", lib.Int(1))}}, Where: lib.Bin("!=", lib.Key(), lib.Str("zz")), Group: []string{"g1"}}, Pairs: close6, Batch: 2})
+	write("C16", "c16", "offset-after-tab", "a word behind a tab reported the offset of the tab", &c16Case{Query: "a \tkey"})
+	write("C16", "c16", "offset-after-newline", "a word behind a line end reported the offset of the line end", &c16Case{Query: "select *\nwhere key = 'a'"})
+	write("C14", "c14matrix", "bool-in-list", "(key = 'a') in (true) was accepted and failed on the first row", &c14MatrixCase{E: lib.In(lib.Bin("=", lib.Key(), lib.Str("a")), lib.Bool(true), lib.Bool(true)), Where: true})
+	write("C14", "c14matrix", "text-in-int-list-batch", "'a' in list(1, 2) failed in batch mode only", &c14MatrixCase{E: lib.InList(lib.Str("a"), lib.Call("list", lib.Int(1), lib.Int(2)))})
+	write("C14", "c14matrix", "list-equals-list", "split(value, ',') = split(value, ',') was accepted and failed on the first row", &c14MatrixCase{E: lib.Bin("=", lib.Call("split", lib.Value(), lib.Str(",")), lib.Call("split", lib.Value(), lib.Str(","))), Where: true})
+
 	write("C03", "c03", "limit-skip-boundary", "limit 2,2 with batch size 2 returned rows 0-1", &c03Case{Stmt: &lib.Stmt{Kind: "select", Star: true, Where: lib.Bin("!=", lib.Key(), lib.Str("zz")), Lim: &lib.Limit{Start: 2, Count: 2, Two: true}}, Pairs: abc, Batch: 2, Batch2: 32})
 	write("C03", "c03", "in-split-row", "'1' in split(value, ',') failed row at a time only", &c03Case{Stmt: &lib.Stmt{Kind: "select", Fields: []lib.SelField{{E: lib.Key()}, {E: lib.Call("split", lib.Value(), lib.Str(","))}}, Where: lib.InList(lib.Str("1"), lib.Call("split", lib.Value(), lib.Str(",")))}, Pairs: abc, Batch: 2, Batch2: 32})
 	write("C03", "c03", "list-index-row", "list(1,2,3)[1] failed row at a time only", &c03Case{Stmt: &lib.Stmt{Kind: "select", Fields: []lib.SelField{{E: lib.Index(lib.Call("list", lib.Int(1), lib.Int(2), lib.Int(3)), 1)}}, Where: lib.Bin("^=", lib.Key(), lib.Str("a"))}, Pairs: abc, Batch: 2, Batch2: 32})
